@@ -342,6 +342,9 @@ class Impl:
                 return [u.enc_obj(optree.tree_replace_nones(u.leaf(0, 777777), u.obj(s[2]), namespace=kw['namespace']))]
         if op == 'ordersm':
             return self.ordersm(s[1:])
+        if op == 'ravel':
+            import ravel_impl
+            return ravel_impl.run(s)
         if op == 'sorttwin':
             import twins_impl
             return twins_impl.sort_twin(u, [u.key(k) for k in s[1:]])
